@@ -34,6 +34,16 @@ pub enum ValuePattern {
     VCons(ConsN<RcVPat, RcVPat>),
 }
 
+/// The statically resolved position of a product field.
+///
+/// Products are right-nested spines at run time, so the last field of a product
+/// owns the whole remaining spine rather than a single element of it.
+#[derive(Clone, Copy, Debug)]
+pub struct ProductIndex {
+    pub position: usize,
+    pub is_last: bool,
+}
+
 /// Runtime values: variables, thunks, constructors, and literals.
 #[derive(From, Clone, Debug)]
 pub enum Value {
@@ -46,7 +56,7 @@ pub enum Value {
     Ctor(Ctor<CtorName, RcValue>),
     Triv(Triv),
     VCons(ConsN<RcValue, RcValue>),
-    Proj(Proj<RcValue, usize>),
+    Proj(Proj<RcValue, ProductIndex>),
     Lit(Literal),
     SemValue(SemValue),
 }
